@@ -130,6 +130,10 @@ STD_DISCR = {"core::option::Option": {"None": 0, "Some": 1}, "core::result::Resu
              "core::ops::control_flow::ControlFlow": {"Continue": 0, "Break": 1}, "core::ops::ControlFlow": {"Continue": 0, "Break": 1}}
 
 
+# enums of the analysed crates (filled by normalise from the fact files: variant -> discriminant value)
+USER_DISCR = {}
+
+
 def _known_variant(stmts, local, depth=0, names=False):
     """discriminant value of `local` at the end of a statement list, when its last assignment there builds a std enum variant
     (followed through plain moves); None when unknown"""
@@ -140,8 +144,9 @@ def _known_variant(stmts, local, depth=0, names=False):
                 return None
             continue
         rv = st["rv"]
-        if rv["k"] == "agg" and rv.get("ak") == "adt" and rv.get("adt") in STD_DISCR:
-            return rv.get("variant") if names else STD_DISCR[rv["adt"]].get(rv.get("variant"))
+        if rv["k"] == "agg" and rv.get("ak") == "adt" and (rv.get("adt") in STD_DISCR or rv.get("adt") in USER_DISCR):
+            tab = STD_DISCR.get(rv["adt"]) or USER_DISCR[rv["adt"]]
+            return rv.get("variant") if names else tab.get(rv.get("variant"))
         if rv["k"] == "use" and rv["a"].get("k") in ("move", "copy") and not rv["a"]["p"].get("p") and depth < 4:
             # the moved-from local must have been set earlier in the same list
             idx = stmts.index(st)
@@ -827,6 +832,10 @@ def normalise(prog):
     kn = known()
     if kn is None:
         return []
+    USER_DISCR.clear()
+    for a, d in prog.adts.items():
+        if d.get("kind") == "Enum" and all("discr" in v for v in d.get("variants", [])):
+            USER_DISCR[a] = {v["name"]: v["discr"] for v in d["variants"]}
     aliased = alias_renames(prog)
     prog.aliased = aliased
     # functions whose body differs from the pinned tree's get flag threading (identity on the pinned tree)
